@@ -65,6 +65,10 @@ def specials():
         for pos, call in (('after-open', 'PAIR(%s1,2)'), ('before-comma', 'PAIR(1%s,2)'), ('after-comma', 'PAIR(1,%s2)'), ('before-close', 'PAIR(1,2%s)'),
                           ('only-first', 'PAIR(%s,2)'), ('only-second', 'PAIR(1, %s)'), ('nested', 'PAIR(PAIR(1,%s),2)')):
             out.append(('macro-arg:%s:%s' % (sname, pos), '#define PAIR(A,B) [A,B]\nx = ' + call % sep + ';\ny = 3;\n'))
+    out.append(('callable-name-at-argument-end', '#define T(A) A A\n#define Q(A) A\nT(s-Q)\nT(Q)\nT(1, Q)\n'))
+    out.append(('define-unterminated-string', '#define A "\nx = A;\n'))
+    out.append(('define-unterminated-string-args', '#define A(x) x + " 1\ny = A(2);\nz = 3;\n'))
+    out.append(('define-unterminated-single-quote', "#define A 'q\nx = A;\n"))
     out.append(('include-eof', '#include "'))
     out.append(('ifdef-eof', '#ifdef'))
     out.append(('line-eof', '#line'))
@@ -217,7 +221,7 @@ def run_inputs(chk, runner, inputs, batch, script_every):
         ln = len(item[0]['src'])
         return 300 + ln * 0.02 * len(item)   # ms; far above the normal cost per byte and front end under ASan
 
-    results = core.run_items(runner, prefix, items, batch=batch, base_cpu_ms=5000, item_cpu_ms=cpu, counters=chk.counters)
+    results = core.run_items(runner, prefix, items, batch=batch, base_cpu_ms=5000, item_cpu_ms=cpu, counters=chk.counters, max_deaths=400)   # inputs that reach recorded defects die too; the cap only guards against a tree that is broken throughout
     for (label, path, text), ws, r, item in zip(inputs, flags, results, items):
         chk.evaluations += 1
         chk.sig(label.split('@')[0] + ':' + os.path.basename(path) + ':' + str(len(text)) + ':' + str(hash(text) & 0xffff))
